@@ -93,6 +93,22 @@ func c04Plans(tier string) []faultPlan {
 			out = append(out, mkPlan(t, "sigkill", "", k, 0))
 		}
 	}
+	// a destination that is already in sync: no content request is ever sent,
+	// so after a cancellation the next packet either end reads is a STAT or
+	// FIN (tree numbers >= 1000: same tree, prior = copy of the source)
+	for t := 0; t < trees; t++ {
+		first := len(out)
+		for k := 0; k < 32; k++ {
+			out = append(out, mkPlan(1000+t, "cancelS", "", k, 0), mkPlan(1000+t, "cancelR", "", k, 0))
+		}
+		for k := 0; k < 14; k++ {
+			out = append(out, mkPlan(1000+t, "walk", "", k, 0))
+		}
+		for _, pl := range out[first:] {
+			pl.KeepCtx = true
+			out = append(out, pl)
+		}
+	}
 	for i := 0; i < fan; i++ {
 		out = append(out, mkPlan(i, "fanout", []string{"rsend-sticky", "cancelR", "cancelS", "srecv-sticky", "ssend-sticky", "rrecv-eof", "notify-backlog", "hasher-backlog", "cancelR-backlog", "teardown-backlog"}[i%10], 0, (i/10)%2))
 	}
@@ -101,6 +117,10 @@ func c04Plans(tier string) []faultPlan {
 
 // c04Tree is the small tree whose every operation index is enumerated.
 func c04Tree(seed uint64, idx int) (*tree.Tree, *tree.Tree) {
+	if idx >= 1000 {
+		t, _ := c04Tree(seed, idx-1000)
+		return t, t.Clone()
+	}
 	R := core.NewRand(core.Mix(seed, "C04-tree", idx))
 	t := &tree.Tree{}
 	put := func(e tree.Entry) {
@@ -213,7 +233,7 @@ func c04Run(c *core.Ctx) *core.Result {
 	sf := newSynthFS(src)
 	nrec := newNotifyRec()
 	hs := newHasher()
-	cfg := wire.Config{Cap: []int{0, 1, 8}[plan.K%3], TeardownKeepsContexts: plan.KeepCtx}
+	cfg := wire.Config{Cap: []int{0, 1, 8}[plan.K%3], TeardownKeepsContexts: plan.KeepCtx, StreamIgnoresContexts: plan.KeepCtx}
 	var pair *wire.Pair
 	var ops atomic.Int64
 	sticky := atomic.Bool{}
